@@ -646,11 +646,11 @@ impl<M: Manager, W: From<Object<M>>> Pool<M, W> {
     pub fn status(&self) -> Status {
         let slots = self.inner.slots.lock().unwrap();
         let users = self.inner.users.load(Ordering::Relaxed);
-        let (available, waiting) = if users < slots.size {
-            (slots.size - users, 0)
-        } else {
-            (0, users - slots.size)
-        };
+        // `users` counts the objects which are checked out plus the callers
+        // inside `get()`. Idle objects are counted directly: after a shrink
+        // idle objects and waiting callers can exist at the same time.
+        let available = slots.vec.len();
+        let waiting = users.saturating_sub(slots.size.saturating_sub(available));
         Status {
             max_size: slots.max_size,
             size: slots.size,
